@@ -6,11 +6,17 @@ loop, and is compared with `Model/Client.lean` (driver `c04`): the sequence of w
 calls with their virtual timestamps, the outcome (class, which read was returned, `__cause__` presence) and the
 virtual time consumed.
 
-Whether a difference falsifies the *property* is decided by the specification `Spec/ClientSpec.lean`: by the
-theorems `implied_iff_run`, `writes_eq`, `reads_le`, `elapsed_le`, `first_final` and `pending_no_write` of
-`Proofs/C04.lean` an observed behaviour satisfies the specification iff its outcome and number of transmissions
-equal the model's, it stays within the proved bounds, it never reads past a final reply and never transmits
-right after a responsePending.  Every other difference (sleep lengths, reconnects, timeouts passed) is a broken
+Widened cases (`"x": 1`, model `Model/ClientIO.lean`, driver command `runx`): the scripted transport can also fail in
+`write()` (TimeoutError / ConnectionError, j-th write) and in `connect()` during `reconnect_unsafe()` (ConnectionError /
+TimeoutError / OSError, m-th reconnect); the client's mutex is instrumented, so the compared call sequence is
+acquire, write(timeout, result), read(k, timeout), reconnect(result), release with virtual timestamps.  The client
+timeout may be `None` or 0 there (`timeout if timeout else 0`, `_read`'s `timeout is None and self.timeout`).
+
+Whether a difference falsifies the *property* is decided by the specification `Spec/ClientSpec.lean` (widened cases:
+`Spec/ClientIOSpec.lean`): by the theorems `implied_iff_run`, `writes_eq`, `reads_le`, `elapsed_le`, `first_final` and
+`pending_no_write` of `Proofs/C04.lean` (widened: the same names with `_io`) an observed behaviour satisfies the
+specification iff its outcome and number of write attempts equal the model's, it stays within the proved bounds, it
+never reads past a final reply and never transmits right after a responsePending.  Every other difference (sleep lengths, reconnects, timeouts passed) is a broken
 tie and not a failing input.
 """
 import asyncio
@@ -30,8 +36,20 @@ ASSUMPTIONS = [
     "received, so it is returned and not retransmitted); specification and code agree on this reading",
     "a read that does not time out takes a fixed latency smaller than both the request timeout and the 0.5 s poll "
     "interval; a reply arriving during a backoff sleep is represented by the next read returning it immediately",
-    "write() and reconnect() of the transport succeed (faults are injected at read(), as the property's alphabet says)",
-    "max_retry >= 0 and timeout > 0 (client attribute and per-request override)",
+    "reading of the property for faults outside its alphabet: a TimeoutError / ConnectionError raised by write() is a "
+    "retry-worthy event of the same kind as the corresponding read fault (one write attempt per event, failed attempts "
+    "counted, no read in that attempt); a failing reconnect_unsafe() (ConnectionError / TimeoutError / other OSError) ends "
+    "the request with that exception - the property lists no reconnect failure and names no error for it, so the "
+    "specification names the outcome reconnectFailed(m, kind) and does not count it as a violation; the harness "
+    "identifies it by the raised exception object (or a re-raise chained to it) and compares its kind",
+    "write() that does not time out and reconnect_unsafe() take no virtual time; transport.reconnect(None) itself "
+    "(close, connect, the ConnectionError it re-raises) is C08's subject and is represented by its result only",
+    "max_retry >= 0 (range(max_retry + 1) is empty below that and the initial MissingResponse would surface); the "
+    "effective timeout may be None or 0: a transport call that got no deadline and still raises TimeoutError does so on "
+    "its own account (0 ms); a transport that blocks forever without a deadline is outside the model; with timeout 0 "
+    "only replies that are already there (latency 0) are delivered",
+    "asyncio.Lock is released by `async with` whatever leaves the block (contract of asyncio; observed on an "
+    "instrumented lock in every widened case)",
 ]
 
 ALPHA = "tcebpmfnP"  # timeout connErr empty busy pending mismatch malformed negFinal posFinal
@@ -110,9 +128,30 @@ def mk_case(script, cm=0, ct=1000, rt=None, rm=None, lat=10, pad="t", req=0, var
     return {"script": script, "pad": pad, "cm": cm, "ct": ct, "rt": rt, "rm": rm, "lat": lat, "req": req, "var": var}
 
 
+W_ALPHA = "oTC"    # what a write() does: ok, TimeoutError, ConnectionError
+RC_ALPHA = "oCTO"  # what a reconnect does: ok, ConnectionError, TimeoutError, OSError
+W_NAMES = {"o": "write ok", "T": "write TimeoutError", "C": "write ConnectionError"}
+RC_NAMES = {"o": "reconnect ok", "C": "reconnect ConnectionError", "T": "reconnect TimeoutError", "O": "reconnect OSError"}
+
+
+def mk_xcase(script, w="-", rc="-", wpad="o", rcpad="o", **kw):
+    """widened case: `w` what the j-th write() does, `rc` what the m-th reconnect does (text or letters)"""
+    c = mk_case(script, **kw)
+    c.update(x=1, w=w if ("," in w or "*" in w or len(w) <= 1) else script_text(compress(w)), wpad=wpad,
+             rc=rc if ("," in rc or "*" in rc or len(rc) <= 1) else script_text(compress(rc)), rcpad=rcpad)
+    return c
+
+
+def is_x(c):
+    return bool(c.get("x"))
+
+
 def case_line(c):
     def o(x):
         return "none" if x is None else str(x)
+    if is_x(c):
+        return (f"runx {o(c['ct'])} {c['cm']} {o(c['rt'])} {o(c['rm'])} {c['lat']} {c['script']} {c['pad']} "
+                f"{c['w']} {c['wpad']} {c['rc']} {c['rcpad']}")
     return f"run {c['ct']} {c['cm']} {o(c['rt'])} {o(c['rm'])} {c['lat']} {c['script']} {c['pad']}"
 
 
@@ -141,7 +180,16 @@ def _gallia():
 
         @classmethod
         async def connect(cls, target, timeout=None):
-            cls.state.log.append(("n", cls.state.now()))
+            st = cls.state
+            m = st.m
+            st.m += 1
+            ev = st.rcscript.at(m) if st.x else "o"
+            st.log.append(("n", st.now(), ev, m))
+            if ev != "o":
+                st.rc_raised = {"C": ConnectionRefusedError("scripted reconnect"), "T": TimeoutError("scripted reconnect"),
+                                "O": OSError(113, "scripted reconnect: no route to host")}[ev]
+                st.rc_fail = (m, ev)
+                raise st.rc_raised
             return cls(target if isinstance(target, TargetURI) else TargetURI(target))
 
         async def close(self):
@@ -150,7 +198,18 @@ def _gallia():
 
         async def write(self, data, timeout=None, tags=None):
             st = self.state
-            st.log.append(("w", st.now(), bytes(data), timeout, self.is_closed))
+            j = st.j
+            st.j += 1
+            ev = st.wscript.at(j) if st.x else "o"
+            st.log.append(("w", st.now(), bytes(data), timeout, self.is_closed, ev))
+            if ev == "T":
+                if timeout is None:
+                    raise TimeoutError("scripted write")  # a transport-internal timeout: no deadline was given
+                async with asyncio.timeout(timeout):
+                    await asyncio.Event().wait()
+            if ev == "C":
+                st.w_raised = st.conn_errors[(j + st.var) % len(st.conn_errors)]("scripted write")
+                raise st.w_raised
             return len(data)
 
         async def read(self, timeout=None, tags=None):
@@ -159,10 +218,13 @@ def _gallia():
             st.k += 1
             ev = st.script.at(k)
             st.log.append(("r", st.now(), k, timeout, self.is_closed))
+            if st.x and ev == "t" and timeout is None:
+                raise TimeoutError("scripted read")  # a transport-internal timeout: no deadline was given
             async with asyncio.timeout(timeout):
                 if ev == "t":
                     await asyncio.Event().wait()
-                await asyncio.sleep(st.lat)
+                if st.lat or not st.x:
+                    await asyncio.sleep(st.lat)
                 if ev == "c":
                     raise st.conn_errors[(k + st.var) % len(st.conn_errors)]("scripted")
                 if ev == "e":
@@ -202,6 +264,14 @@ def _gallia():
 
         def __init__(self, case):
             self.script = Script(parse_script(case["script"]), case["pad"])
+            self.x = is_x(case)
+            self.wscript = Script(parse_script(case["w"]), case["wpad"]) if self.x else None
+            self.rcscript = Script(parse_script(case["rc"]), case["rcpad"]) if self.x else None
+            self.j = 0
+            self.m = 0
+            self.rc_raised = None
+            self.rc_fail = None
+            self.w_raised = None
             self.k = 0
             self.lat = case["lat"] / 1000
             self.var = case["var"]
@@ -231,6 +301,23 @@ def _gallia():
                 return bytes.fromhex(R["malformed"][v % len(R["malformed"])])
             raise AssertionError(ev)
 
+    class LogLock(asyncio.Lock):
+        """the client's mutex, with acquire / release recorded in the transport's log"""
+
+        def __init__(self, st):
+            super().__init__()
+            self.st = st
+
+        async def acquire(self):
+            r = await super().acquire()
+            self.st.log.append(("L", self.st.now()))
+            return r
+
+        def release(self):
+            self.st.log.append(("U", self.st.now()))
+            super().release()
+
+    _G.update(LogLock=LogLock)
     _G.update(service=service, UDSClient=UDSClient, UDSRequestConfig=UDSRequestConfig, IllegalResponse=IllegalResponse,
               MissingResponse=MissingResponse, FakeTransport=FakeTransport, TargetURI=TargetURI, State=State, reqs=reqs)
     return _G
@@ -247,7 +334,9 @@ async def impl_case(case):
     FT = G["FakeTransport"]
     FT.state = st
     tr = FT(G["TargetURI"]("fake://script"))
-    client = G["UDSClient"](tr, timeout=case["ct"] / 1000, max_retry=case["cm"])
+    client = G["UDSClient"](tr, timeout=None if case["ct"] is None else case["ct"] / 1000, max_retry=case["cm"])
+    if st.x:
+        client.mutex = G["LogLock"](st)
     if case["rt"] is None and case["rm"] is None:
         cfg = None if case["var"] % 2 == 0 else G["UDSRequestConfig"]()
     else:
@@ -257,7 +346,16 @@ async def impl_case(case):
     st.t0 = loop.time()
     detail = ""
     try:
-        resp = await client.request(req, cfg)
+        try:
+            resp = await client.request(req, cfg)
+        except Exception as e:
+            if st.rc_raised is not None and isinstance(e, OSError) and _in_chain(e, st.rc_raised):
+                # the exception of the failed reconnect (or a re-raise of it) ends the request; its kind is what counts
+                kind = "C" if isinstance(e, ConnectionError) else "T" if isinstance(e, TimeoutError) else "O"
+                raise _RcFailed(kind) from None
+            if st.w_raised is not None and e is st.w_raised:
+                raise _WEscaped(type(e).__name__) from None
+            raise
         last = st.k - 1
         got = bytes(resp.pdu)
         if last >= 0 and st.script.at(last) not in "tce" and got == st.pdu(last):
@@ -266,6 +364,11 @@ async def impl_case(case):
             j = next((j for j in range(st.k) if st.script.at(j) not in "tce" and st.pdu(j) == got), None)
             out = f"reply:stale{j}" if j is not None else "reply:unknown"
             detail = got.hex()
+    except _RcFailed as e:
+        out = f"rcfail:{st.rc_fail[0]}:{e.args[0]}"
+    except _WEscaped as e:
+        out = f"escaped:w{st.j - 1}"
+        detail = str(e)
     except G["MissingResponse"] as e:
         out = "missing:1" if isinstance(e.__cause__, ConnectionError) else "missing:0"
     except G["IllegalResponse"] as e:
@@ -285,6 +388,23 @@ async def impl_case(case):
     tr_out = []
     log = st.log
     i = 0
+    kinds = "".join({"w": "w", "r": "r", "n": "c"}.get(e[0], "") for e in log)
+    while st.x and i < len(log):
+        # widened form: L@t, w:<tmo>:<o|T|C>@t, r<k>:<tmo>@t, c:<o|C|T|O>@t, U@t
+        e = log[i]
+        if e[0] == "w":
+            tok = "w" if e[2] == bytes(req.pdu) else "w!" + e[2].hex()
+            tmo = "none" if e[3] is None else str(ms(e[3]))
+            tr_out.append(f"{tok}:{tmo}:{e[5]}{'!closed' if e[4] else ''}@{ms(e[1])}")
+        elif e[0] == "r":
+            tmo = "none" if e[3] is None else str(ms(e[3]))
+            tr_out.append(f"r{e[2]}:{tmo}{'!closed' if e[4] else ''}@{ms(e[1])}")
+        elif e[0] == "x" and i + 1 < len(log) and log[i + 1][0] == "n":
+            tr_out.append(f"c:{log[i + 1][2]}@{ms(e[1])}")
+            i += 1
+        else:
+            tr_out.append(f"{e[0]}@{ms(e[1])}")
+        i += 1
     while i < len(log):
         e = log[i]
         if e[0] == "w":
@@ -304,7 +424,25 @@ async def impl_case(case):
     n_w = sum(1 for e in log if e[0] == "w")
     n_r = sum(1 for e in log if e[0] == "r")
     return {"out": out, "writes": n_w, "reads": n_r, "elapsed": elapsed, "trace": tr_out, "detail": detail,
-            "mutex_free": not client.mutex.locked()}
+            "mutex_free": not client.mutex.locked(), "kinds": kinds}
+
+
+class _RcFailed(Exception):
+    pass
+
+
+def _in_chain(e, target):
+    seen = 0
+    while e is not None and seen < 8:
+        if e is target:
+            return True
+        e = e.__cause__ or e.__context__
+        seen += 1
+    return False
+
+
+class _WEscaped(Exception):
+    pass
 
 
 def run_impl_batch(cases):
@@ -329,7 +467,7 @@ def run_impl_batch(cases):
                 out += go([c])
             except Stall:
                 out.append({"out": "hang", "writes": -1, "reads": -1, "elapsed": -1, "trace": [], "detail": "virtual loop stalled",
-                            "mutex_free": False})
+                            "mutex_free": False, "kinds": ""})
         return out
 
 
@@ -353,8 +491,43 @@ def lean_batch(driver, lines):
     return out
 
 
+def parse_model_x(line):
+    f = line.split(" ")
+    if len(f) != 10:
+        raise RuntimeError("unexpected driver reply: " + line[:200])
+    out, w, wok, r, rc, el, rb, eb, mnt, tr = f
+    t = 0
+    trace = []
+    sleeps = []
+    kinds = ""
+    for tok in tr.split(","):
+        if tok in ("L", "U"):
+            trace.append(f"{tok}@{t}")
+        elif tok[0] == "w":
+            _, tmo, res, dur = tok.split(":")
+            trace.append(f"w:{tmo}:{res}@{t}")
+            t += int(dur)
+            kinds += "w"
+        elif tok[0] == "c":
+            trace.append(f"{tok}@{t}")
+            kinds += "c"
+        elif tok[0] == "r":
+            k, tmo, dur = tok[1:].split(":")
+            trace.append(f"r{k}:{tmo}@{t}")
+            t += int(dur)
+            kinds += "r"
+        elif tok[0] == "s":
+            sleeps.append(int(tok[1:]))
+            t += int(tok[1:])
+    return {"out": out, "writes": int(w), "writes_ok": int(wok), "reads": int(r), "reconnects": int(rc), "elapsed": int(el),
+            "reads_bound": int(rb), "elapsed_bound": int(eb), "max_nt": int(mnt), "trace": trace, "sleeps": sleeps,
+            "kinds": kinds}
+
+
 def parse_model(line):
     f = line.split(" ")
+    if len(f) == 10:
+        return parse_model_x(line)
     if len(f) != 9:
         raise RuntimeError("unexpected driver reply: " + line[:200])
     out, w, r, rc, el, rb, eb, mnt, tr = f
@@ -383,6 +556,8 @@ def parse_model(line):
 
 
 def out_class(o):
+    if o.startswith("rcfail"):
+        return "rcfail:" + o.split(":")[-1]
     return o.split(":")[0] if not o.startswith("missing") else o
 
 
@@ -544,15 +719,46 @@ def shrink(driver, case, obs, mod, verdict):
                     break
             if done:
                 break
+        # 5. widened cases: fewest write / reconnect faults, simplest kinds
+        if is_x(best[0]):
+            for field, simpler in (("w", {"C": "oT", "T": "o"}), ("rc", {"O": "oC", "T": "oC", "C": "o"})):
+                if best[0][field + "pad"] != "o":
+                    attempt({**best[0], field + "pad": "o"})
+                if best[0][field] != "-":
+                    attempt({**best[0], field: "-"})
+                for _ in range(30):
+                    letters = "".join(ch * n for ch, n in parse_script(best[0][field]))
+                    cands = []
+                    for i, ch in enumerate(letters):
+                        cands.append(letters[:i] + letters[i + 1:])
+                        cands += [letters[:i] + r + letters[i + 1:] for r in simpler.get(ch, "")]
+                    if not any(attempt({**best[0], field: script_text(compress(cnd))}) for cnd in cands):
+                        break
+            for patch in ({"ct": 1000}, {"rt": None}):
+                c2 = {**best[0], **patch}
+                if c2 != best[0]:
+                    attempt(c2)
         if best[0] == before:
             break
     return best
 
 
+def consumed(case, field, n):
+    sc = Script(parse_script(case[field]), case[field + "pad"])
+    return script_text(compress("".join(sc.at(i) for i in range(max(n, 0)))))
+
+
 def key_of(case, obs, mod, verdict):
-    mr, _ = effective(case)
+    mr, tmo = effective(case)
     ctx_txt = context_of(case, obs["reads"] if obs["reads"] >= 0 else script_len(parse_script(case["script"])))
     kind = "spec" if verdict[0] else "tie"
+    if is_x(case):
+        nw = max(obs["kinds"].count("w"), mod["kinds"].count("w"))
+        nc = max(obs["kinds"].count("c"), mod["kinds"].count("c"))
+        extra = "" if tmo else f":timeout={tmo}"
+        return (f"client-io:{kind}:writes={consumed(case, 'w', nw)}:events={ctx_txt}:"
+                f"reconnects={consumed(case, 'rc', nc)}:max_retry={mr}{extra}:"
+                f"impl={out_class(obs['out'])}:implied={out_class(mod['out'])}")
     return f"client-loop:{kind}:events={ctx_txt}:max_retry={mr}:impl={out_class(obs['out'])}:implied={out_class(mod['out'])}"
 
 
@@ -601,6 +807,105 @@ def _list_worker(args):
         if v is not None and len(bad) < 40:
             bad.append((c, o, m, v))
     return len(cases), kinds, bad, max((o["reads"] for o in obs), default=0), sum(1 for o in obs if o["reads"] >= 2)
+
+
+def first_pad_use(kinds, node):
+    """kind ('w' / 'r' / 'c') of the first transport call that ran past its scripted stream, or None"""
+    left = {"w": len(node[0]), "r": len(node[1]), "c": len(node[2])}
+    for ch in kinds:
+        if left[ch] == 0:
+            return ch
+        left[ch] -= 1
+    return None
+
+
+X_ALPHA = {"w": W_ALPHA, "r": ALPHA, "c": RC_ALPHA}
+
+
+def xnode_case(node, base):
+    w, r, c = node
+    return mk_xcase(script_text(compress(r)), w=script_text(compress(w)), rc=script_text(compress(c)), **base)
+
+
+def _xtree_worker(args):
+    """exhaustive tree over the widened alphabet below `start` = (writes, reads, reconnects): a node is extended at
+    the first transport call that found its stream exhausted, with every letter that call can be answered with;
+    `depth` bounds the total number of scripted decisions; nodes of total length `stop_at` are returned unexpanded"""
+    driver, base, start, depth, stop_at = args
+    level = [start]
+    n_cases = 0
+    n_nontrivial = 0
+    kinds = {}
+    bad = []
+    max_reads = 0
+    frontier = []
+    while level:
+        cases = [xnode_case(nd, base) for nd in level]
+        obs, mods = check_cases(driver, cases)
+        nxt = []
+        for nd, c, o, m in zip(level, cases, obs, mods):
+            n_cases += 1
+            n_nontrivial += 1 if len(o["kinds"]) >= 3 else 0
+            kinds[out_class(m["out"])] = kinds.get(out_class(m["out"]), 0) + 1
+            max_reads = max(max_reads, o["reads"])
+            v = judge(c, o, m)
+            if v is not None and len(bad) < 40:
+                bad.append((c, o, m, v))
+            total = len(nd[0]) + len(nd[1]) + len(nd[2])
+            if total >= depth or o["out"] == "hang":
+                continue
+            ki, km = first_pad_use(o["kinds"], nd), first_pad_use(m["kinds"], nd)
+            if ki != km:
+                if v is None:
+                    bad.append((c, o, m, (False, ["transport calls consumed differ"])))
+                continue
+            if ki is None:
+                continue
+            idx = "wrc".index(ki)
+            children = [tuple(nd[q] + (ch if q == idx else "") for q in range(3)) for ch in X_ALPHA[ki]]
+            if stop_at is not None and total + 1 >= stop_at:
+                frontier += children
+            else:
+                nxt += children
+        level = nxt
+    return n_cases, kinds, bad, max_reads, n_nontrivial, frontier
+
+
+def read_timeout_tie(driver):
+    """`UDSClient._read(timeout=arg)` for every combination of self.timeout and arg: the timeout transport.read receives"""
+    G = _gallia()
+    vals = [None, 0, 300, 500, 2000]
+    combos = [(a, b) for a in vals for b in vals]
+    got = []
+
+    async def one(st_ms, arg_ms):
+        case = mk_xcase("P", lat=0)
+        st = G["State"](case)
+        G["FakeTransport"].state = st
+        tr = G["FakeTransport"](G["TargetURI"]("fake://script"))
+        client = G["UDSClient"](tr, timeout=None if st_ms is None else st_ms / 1000)
+        try:
+            await client._read(timeout=None if arg_ms is None else arg_ms / 1000)
+        except TimeoutError:
+            pass
+        e = next(e for e in st.log if e[0] == "r")
+        return "none" if e[3] is None else str(ms(e[3]))
+
+    loop = VLoop()
+    try:
+        asyncio.set_event_loop(loop)
+
+        async def main():
+            return [await one(a, b) for a, b in combos]
+        got = loop.run_until_complete(main())
+    finally:
+        asyncio.set_event_loop(None)
+        loop.close()
+
+    def o(x):
+        return "none" if x is None else str(x)
+    want = lean_batch(driver, [f"readtmo {o(a)} {o(b)}" for a, b in combos])
+    return [(a, b, g, w) for (a, b), g, w in zip(combos, got, want)]
 
 
 # ---------------------------------------------------------------------------------------------------------
@@ -675,6 +980,68 @@ def random_case(rng, long_ok):
                    pad=rng.choice("tttPpnbc"), req=rng.randrange(4), var=rng.randrange(64))
 
 
+XCONFIGS = [
+    # widened trees for other configurations: client timeout None / 0, `is not None` overrides, other continuations
+    dict(cm=1, ct=None, lat=10),                      # no deadline: write(None) / read(None), silence limit from the floor
+    dict(cm=2, ct=0, lat=0),                          # timeout 0 is falsy for the silence limit, but is passed on as 0
+    dict(cm=1, ct=30000, rt=0, lat=0),                # override 0 wins over the attribute (`is not None`)
+    dict(cm=0, ct=1000, rm=2, lat=10, req=1, var=1),  # max_retry overridden up
+    dict(cm=3, ct=500, rm=1, rt=2000, lat=50, req=2, var=2),
+    dict(cm=1, ct=1000, lat=10, wpad="C", rcpad="C", req=3, var=3),   # everything fails after the script
+    dict(cm=2, ct=1000, lat=10, wpad="T", pad="c", req=1, var=5),
+    dict(cm=2, ct=1000, lat=10, pad="p", rcpad="O", req=2, var=7),
+]
+
+
+def long_runs_x():
+    """widened scripts across the limits: faults of write() / reconnect around pending and silence episodes"""
+    out = []
+    for cm in (0, 1, 2, 3):
+        # every write fails / every reconnect fails, in every combination of kinds
+        for wk in ("T", "C", "TC", "CT", "CCT", "TTC", "CCCC", "TTTT", "oCoT", "CoTo"):
+            for rk in ("-", "C", "oC", "ooT", "oooO", "T", "O"):
+                out.append(mk_xcase("P", w=wk, rc=rk, cm=cm, pad="P"))
+                out.append(mk_xcase("c,t,e,b", w=wk, rc=rk, cm=cm, pad="t"))
+        # connection lost at the end of a long pending run, reconnect fails / works, next write fails
+        for n in (1, 118, 119):
+            for rk in "oCTO":
+                for wk in ("o", "oT", "oC"):
+                    out.append(mk_xcase([("p", n), ("c", 1), ("P", 1)], w=wk, rc=rk, cm=cm))
+                    out.append(mk_xcase([("p", n), ("e", 1), ("p", 2), ("c", 1), ("n", 1)], w=wk, rc="o" + rk, cm=cm))
+        # a silence episode, then the retransmission fails
+        for wk in ("oT", "oC", "oTo", "oCo", "ooC"):
+            for rk in "oCT":
+                out.append(mk_xcase([("p", 1), ("t", 40), ("P", 1)], w=wk, rc=rk, cm=cm))
+                out.append(mk_xcase([("p", 2), ("t", 40), ("p", 1), ("t", 40), ("P", 1)], w=wk, rc=rk, cm=cm))
+        # the silence limit for falsy / overridden timeouts: None, 0, override 0 over 30 s, 30 s, 20.3 s
+        for ct, rt, lat, nt in ((None, None, 10, 40), (0, None, 0, 40), (30000, 0, 0, 40), (None, 30000, 10, 60),
+                                (0, 20300, 10, 41), (None, 0, 0, 40)):
+            for d in (-1, 0, 1):
+                for fin in "Pc":
+                    for wk, rk in (("-", "-"), ("oT", "-"), ("oC", "C"), ("oC", "o")):
+                        out.append(mk_xcase([("p", 1), ("t", nt + d), (fin, 1), ("P", 1)], w=wk, rc=rk, cm=cm, ct=ct,
+                                            rt=rt, lat=lat, pad="P"))
+    return out
+
+
+def random_xcase(rng):
+    c = random_case(rng, True)
+    ct = rng.choice([c["ct"], c["ct"], c["ct"], None, 0])
+    rt = rng.choice([c["rt"], c["rt"], c["rt"], 0])
+    tmo = rt if rt is not None else ct
+    lat = c["lat"]
+    if tmo == 0:
+        lat = 0
+    elif tmo is not None and lat >= min(tmo, 500):
+        lat = 0
+    wl = "".join(rng.choice("ooooTC" if rng.random() < 0.7 else "oTC") for _ in range(rng.randint(0, 6)))
+    rl = "".join(rng.choice("oooCTO" if rng.random() < 0.7 else "oCTO") for _ in range(rng.randint(0, 4)))
+    x = mk_xcase(c["script"], w=script_text(compress(wl)), rc=script_text(compress(rl)), wpad=rng.choice("ooooTC"),
+                 rcpad=rng.choice("oooCTO"), cm=c["cm"], ct=ct, rt=rt, rm=c["rm"], lat=lat, pad=c["pad"], req=c["req"],
+                 var=c["var"])
+    return x
+
+
 # ---------------------------------------------------------------------------------------------------------
 # the check
 # ---------------------------------------------------------------------------------------------------------
@@ -728,9 +1095,39 @@ def run(ctx):
     for i in range(0, len(rc), 100):
         tasks.append(("list", (str(driver), rc[i:i + 100])))
 
+    # 5. widened alphabet: write() and reconnect can fail.  Lists here, trees below (two phases)
+    lx = long_runs_x()
+    for i in range(0, len(lx), 60):
+        tasks.append(("list", (str(driver), lx[i:i + 60])))
+    n_randx = ctx.pick(3000, 60000)
+    rx = [random_xcase(ctx.rng) for _ in range(n_randx)]
+    for i in range(0, len(rx), 100):
+        tasks.append(("list", (str(driver), rx[i:i + 100])))
+    xdepth = ctx.pick(10, 12)
+    xdepth_cfg = ctx.pick(8, 9)
+    xroots = [(dict(cm=cm, ct=1000, lat=10), xdepth) for cm in (0, 1, 2, 3)] + [(b, xdepth_cfg) for b in XCONFIGS]
+    ctx.exhaustive_parts.append(
+        f"widened alphabet (write: ok / TimeoutError / ConnectionError; read: the 9 events; reconnect: ok / ConnectionError / "
+        f"TimeoutError / OSError): every script of up to {xdepth} scripted transport decisions (a script is extended at the "
+        f"first call that found its stream exhausted, with every answer that call can get) x max_retry in {{0,1,2,3}}; up to "
+        f"{xdepth_cfg} decisions x {len(XCONFIGS)} configurations (client timeout None / 0, override 0, max_retry overrides, "
+        f"failing continuations)")
+    ctx.exhaustive_parts.append("write / reconnect faults around pending runs of 118..120 and silence episodes; silence limit for "
+                                "timeout None / 0 / override 0 / 30 s / 20.3 s; UDSClient._read timeout for 5 x 5 (self.timeout, arg)")
+
     with multiprocessing.get_context("fork").Pool(min(16, max(2, multiprocessing.cpu_count()))) as pool:
+        xjobs_a = [pool.apply_async(_xtree_worker, ((str(driver), b, ("", "", ""), d, 3),)) for b, d in xroots]
         jobs = [pool.apply_async(_tree_worker if k == "tree" else _list_worker, (a,)) for k, a in tasks]
+        xres_a = [j.get() for j in xjobs_a]
+        xjobs_b = []
+        for (b, d), ra in zip(xroots, xres_a):
+            for nd in ra[5]:
+                xjobs_b.append(pool.apply_async(_xtree_worker, ((str(driver), b, nd, d, None),)))
         results = [j.get() for j in jobs]
+        xres_b = [j.get() for j in xjobs_b]
+    for ra in xres_a + xres_b:
+        tasks.append(("xtree", None))
+        results.append(ra[:5])
 
     bad_all = []
     max_reads = 0
@@ -740,11 +1137,18 @@ def run(ctx):
             ctx.nontrivial((ti, j))
         ctx.traces_validated += n
         max_reads = max(max_reads, mr)
-        label = "tree" if k == "tree" else "list"
+        label = k
         for kk, vv in kinds.items():
             ctx.dist[f"{label}:implied={kk}"] += vv
         bad_all += bad
     ctx.notes["max_reads_in_one_request"] = max_reads
+    for a, b, got, want in read_timeout_tie(driver):
+        ctx.ev(1)
+        ctx.dist["_read:" + ("arg none" if b is None else "arg given")] += 1
+        if got != want:
+            ctx.disagree(f"client-read-timeout:self={a}:arg={b}:impl={got}:model={want}",
+                         f"UDSClient._read(timeout={b}) with self.timeout={a} (ms): transport.read got {got}, model {want}",
+                         {"self_timeout_ms": a, "arg_ms": b}, impl=got, model=want, spec_violated=False, site="UDSClient._read")
     ctx.notes["requests"] = [r["name"] for r in _gallia()["reqs"]]
     ctx.sample({"case": lr[0], "line": case_line(lr[0])})
 
@@ -761,7 +1165,10 @@ def run(ctx):
         key = key_of(c2, o2, m2, v2)
         ctx.disagree(key, "UDSClient.request: " + "; ".join(v2[1]),
                      {"case": c2, "driver_line": case_line(c2), "events": [NAMES[ch] for ch, n in parse_script(c2["script"]) for _ in range(min(n, 3))][:12],
-                      "request": _gallia()["reqs"][c2["req"] % 4]["name"]},
+                      "request": _gallia()["reqs"][c2["req"] % 4]["name"]}
+                     | ({"writes": [W_NAMES[ch] for ch, n in parse_script(c2["w"]) for _ in range(min(n, 3))][:12],
+                         "reconnects": [RC_NAMES[ch] for ch, n in parse_script(c2["rc"]) for _ in range(min(n, 3))][:12]}
+                        if is_x(c2) else {}),
                      impl={k: o2[k] for k in ("out", "writes", "reads", "elapsed", "detail")} | {"trace": o2["trace"][:60]},
                      model={k: m2[k] for k in ("out", "writes", "reads", "elapsed")} | {"trace": m2["trace"][:60]},
                      spec_violated=v2[0], site="UDSClient.request_unsafe")
@@ -788,13 +1195,23 @@ MANIFEST = {
                    "transmission, soundness and uniqueness of the outcome w.r.t. the separately written relation "
                    "Spec/ClientSpec.Implied, no final reply is ever read past, backoff sleeps are retry_wait*2^i. Literal limits "
                    "(120 pendings, 0.5 s poll, 20 s floor, 0.2 s backoff) regenerated from client.py with an agreement theorem. "
+                   "Widened model Model/ClientIO (UDSClient.request() = mutex around request_unsafe; transport.request_unsafe = "
+                   "write then read; write() may raise TimeoutError / ConnectionError, reconnect_unsafe() may raise; effective "
+                   "max_retry / timeout incl. None and 0; _read) over scripts of three infinite streams, with the same theorems "
+                   "(`*_io`) against Spec/ClientIOSpec.ImpliedX (22 rules), the shape of the call sequence (a failed write is "
+                   "never followed by a read of that attempt, a failed reconnect is the last action), the deadlines every call "
+                   "gets, and conservativity (without write / reconnect faults the widened run is the old run). "
                    "Tied to the code by running the real UDSClient.request() on a scripted transport under virtual time: every "
-                   "event script up to length 6 (quick) / 8 (thorough) x max_retry 0..3, configuration overrides, long runs "
-                   "across the pending and silence limits; call sequence, timestamps, outcome and __cause__ compared."),
-    "level_note": ("Trusted: Lean kernel (propext, Quot.sound, Classical.choice), asyncio timeouts/sleep under the virtual-time "
-                   "loop, the fake transport, the harness. Faults are injected at read(); write()/reconnect() failures, replies "
-                   "arriving during a backoff sleep and wall-clock effects are outside the model. busyRepeatRequest after "
-                   "responsePending is read as a final reply."),
+                   "read-event script up to length 6 (quick) / 8 (thorough) x max_retry 0..3, configuration overrides, long runs "
+                   "across the pending and silence limits; every widened script (write / read / reconnect decisions) up to 10 "
+                   "(quick) / 12 (thorough) decisions x max_retry 0..3 and up to 8 / 9 x 8 configurations (timeout None / 0, "
+                   "overrides); call sequence incl. mutex acquire / release, deadlines, timestamps, outcome and __cause__ compared."),
+    "level_note": ("Trusted: Lean kernel (propext, Quot.sound, Classical.choice), asyncio timeouts/sleep/Lock under the "
+                   "virtual-time loop, the fake transport, the harness. A failing reconnect_unsafe() is outside the property's "
+                   "alphabet: its exception ends the request and the specification names that outcome (reconnectFailed) without "
+                   "calling it a violation. transport.reconnect() internals (C08), replies arriving during a backoff sleep, "
+                   "negative max_retry, a transport that blocks forever when given no deadline, and wall-clock effects are "
+                   "outside the model. busyRepeatRequest after responsePending is read as a final reply."),
     "technique": "Lean 4 proof (well-founded recursion, functional induction, inductive specification) + differential correspondence under virtual time",
     "design_ref": "DESIGN.md section 7, C04",
 }
